@@ -93,6 +93,7 @@ def unit_h1(cfg):
     pid = cfg[5] if len(cfg) > 5 else "C01"
     magnetic = cfg[6] if len(cfg) > 6 else False
     gates_open = cfg[7] if len(cfg) > 7 else False
+    ext_cfg = cfg[8] if len(cfg) > 8 else False     # thorough-only configuration: extended obligations
     label = "H1/%s/%s/%s/mode=%s/%s" % (name, dim, ",".join("%s=%d" % kv for kv in sorted(lengths.items())) or "mono", mode, want)
     if magnetic:
         label += "/magnetic=" + ("all" if magnetic is True else "+".join(sorted(magnetic)))
@@ -130,7 +131,8 @@ def unit_h1(cfg):
     thorough = _os.environ.get("VERIF_TIER_EFFECTIVE") == "thorough"
     # thorough-tier configurations are extended obligations with a wall budget per unit:
     # what does not finish is reported as undecided, never as success and never as an error
-    u.extended = thorough
+    u.extended = thorough or ext_cfg
+    mand = not ext_cfg
     budget = _time.time() + (900 if thorough else 3600)
     ex = symx.Explorer(timeout_ms=20000, max_paths=3000, abstract=True)
     ex.deadline = budget if thorough else None
@@ -183,7 +185,7 @@ def unit_h1(cfg):
         want = kharness.align_leaves(u, H2, want_buf, r["defs"])
         ncex = len(u.r["cex"])
         ok = u.prove("accumulators", z3.And(*[got[i] == want[i] for i in range(nres)]), H,
-                     _cex(ctx, "accumulators"), sample=(pi == 0), abstract=True)
+                     _cex(ctx, "accumulators"), sample=(pi == 0), abstract=True, mandatory=mand)
         if not ok and not any(c.get("reproduced") for c in u.r["cex"][ncex:]):
             kharness.search_witness(u, H2, _cex(ctx, "leaf-arguments"))
         _prove_side(u, r["side"], H, lambda d: _cex(ctx, "side:" + d))
